@@ -89,10 +89,10 @@ CHECKS = {
           "BasisSHO.op_mat replayed against the model with the similarity scaling. Defining relations of every basis class, sine-DVR quadrature, builders vs independent dense Hamiltonians: dense oracle.",
           LEAN_TB + "General powers, DVR, sine-DVR integrals, spin/electron tables, builders, Quantity: oracle only (partial). Open finding: BasisMultiElectronVac 'a a^dagger'.",
           "Lean 4 proof (SHO algebra over Gaussian rationals) + scaled replay", "§6 C16, §10.2"),
- "C17": P("Lean: simplify_op is exact on every word over {sigma_z, sigma_+, sigma_-} of any length; the Jordan-Wigner swap rule is the fermionic swap conjugation on the whole admitted alphabet. Real "
-          "simplify_op and table_row_swapped_jw replayed. qc_model vs independent fermionic matrix, hermiticity, number conservation, OFS swap sequences: dense oracle.",
-          LEAN_TB + "jw_equals_fock for all orbital counts is not proved (oracle for 1-4 spatial orbitals).",
-          "Lean 4 proof (word normal form, exhaustive swap table) + exact replay", "§6 C17, §10.2"),
+ "C17": P("Lean: simplify_op is exact on every word over {sigma_z, sigma_+, sigma_-} of any length; the Jordan-Wigner swap rule is the fermionic swap conjugation on the whole admitted alphabet; the Jordan-Wigner ladder operators satisfy the canonical anticommutation relations for every chain length (Props/C17CAR). Real "
+          "simplify_op, table_row_swapped_jw, generate_ladder_operator and BasisHalfSpin matrices replayed. qc_model vs independent fermionic matrix, hermiticity, number conservation, OFS swap sequences: dense oracle.",
+          LEAN_TB + "CAR is proved for all orbital counts; the step from CAR to equality of the assembled qc_model Hamiltonian with the fermionic matrix is validated by the oracle for 1-4 spatial orbitals.",
+          "Lean 4 proof (word normal form, exhaustive swap table, CAR for every chain length) + exact replay", "§6 C17, §10.2"),
  "C18": P("Lean: exactness of the Krylov approximation on an invariant Krylov space for every polynomial (Props/C18Krylov, checked on the real routine with start vectors in small invariant "
           "subspaces); assembly of the symmetry-blocked factorisation for every label pattern (reconstruction of the allowed part, cross-sector orthogonality, labels, sort permutation, invalid-qn iff no "
           "sector pairs), kernels as parameters; hypotheses and conclusion checked on real svd_qn output. Krylov exponential vs scipy expm: numerical contract (partial).",
